@@ -207,8 +207,87 @@ fn simplint_cfg(rng: &mut Rng) -> g::Cfg {
     c
 }
 
+/// The parser MODEL (Model/FolParse.v, fuel-driven) needs time exponential in the depth of a chain of
+/// unparenthesised prefix operators (`forall X exists Y not not forall Z ..`: 0.04 s at depth 14, 2 s at
+/// depth 20, a minute at 25); the real parser does not.  Texts for the CLI correspondence stay below it.
+const MODEL_DEPTH: usize = 14;
+fn unary_depth(f: &fol::Formula) -> usize {
+    use fol::Formula as F;
+    match f {
+        F::AtomicFormula(_) => 0,
+        F::UnaryFormula { formula, .. } => 1 + unary_depth(formula),
+        F::QuantifiedFormula { formula, .. } => 1 + unary_depth(formula),
+        F::BinaryFormula { lhs, rhs, .. } => unary_depth(lhs).max(unary_depth(rhs)),
+    }
+}
+/// ... and the printer MODEL needs time exponential in the depth of parenthesised right operands
+/// (`a and (b and (c and ..))`; a minute at depth 20)
+const MODEL_RHS_DEPTH: usize = 8;
+fn rhs_depth(f: &fol::Formula) -> usize {
+    use fol::Formula as F;
+    match f {
+        F::AtomicFormula(_) => 0,
+        F::UnaryFormula { formula, .. } => rhs_depth(formula),
+        F::QuantifiedFormula { formula, .. } => rhs_depth(formula),
+        F::BinaryFormula { lhs, rhs, .. } => {
+            let r = if matches!(**rhs, F::BinaryFormula { .. }) { 1 + rhs_depth(rhs) } else { rhs_depth(rhs) };
+            rhs_depth(lhs).max(r)
+        }
+    }
+}
+fn model_friendly(f: &fol::Formula) -> bool {
+    unary_depth(f) <= MODEL_DEPTH && rhs_depth(f) <= MODEL_RHS_DEPTH
+}
+/// one or two formulas on which the fixpoint loop needs a dozen passes and more, within MODEL_DEPTH
+fn deep_text(rng: &mut Rng) -> String {
+    use crate::ext::clsterm;
+    let n = 1 + rng.weighted(&[8, 2]);
+    let fs: Vec<fol::Formula> = (0..n)
+        .map(|_| {
+            for _ in 0..20 {
+                let f = match rng.below(3) {
+                    0 => {
+                        let n = 11 + rng.below(3);
+                        clsterm::fam_prefix(rng, n)
+                    }
+                    1 => {
+                        let n = 12 + rng.below(18);
+                        clsterm::fam_pulled(rng, n)
+                    }
+                    _ => {
+                        let n = 11 + rng.below(6);
+                        clsterm::fam_taustar(rng, n)
+                    }
+                };
+                if model_friendly(&f) && clsterm::tame(&f) {
+                    return f;
+                }
+            }
+            clsterm::fam_pulled(rng, 14)
+        })
+        .collect();
+    fol::Theory { formulas: fs }.to_string()
+}
+
 fn redex_rich(rng: &mut Rng) -> fol::Formula {
-    match rng.weighted(&[3, 3, 3, 2, 1]) {
+    match rng.weighted(&[3, 3, 3, 2, 1, 3, 2, 2]) {
+        // the redex shape of each classic rule (all pairs of sorts in the transitive-equality redex),
+        // mixed-sort quantifier blocks, and the families on which the fixpoint loop needs many passes
+        // (kept when the loop stays small: the model gives the classic loop 64 passes)
+        5 => {
+            let rule = *rng.pick(&[simplcls::Rule::Rdn, simplcls::Rule::Sdv, simplcls::Rule::Rqd, simplcls::Rule::Eqs, simplcls::Rule::Ste]);
+            simplcls::formula_for(rng, rule)
+        }
+        6 => super::gentext::mixed_block(rng),
+        7 => {
+            for _ in 0..20 {
+                let f = crate::ext::clsterm::tame_case(rng);
+                if model_friendly(&f) {
+                    return f;
+                }
+            }
+            crate::ext::clsterm::fam_pulled(rng, 3)
+        }
         0 => {
             let c = simplint_cfg(rng);
             let d = 1 + rng.below(3);
@@ -353,6 +432,11 @@ const PORTFOLIOS: &[&str] = &["intuitionistic", "ht", "classic"];
 const STRATEGIES: &[&str] = &["shallow", "recursive", "fixpoint"];
 
 fn gen_simplify(rng: &mut Rng) -> Sexp {
+    if rng.chance(4) {
+        // the fixpoint strategy on formulas that need a dozen passes and more (at most 64 in the model)
+        let pf = *rng.pick(&["classic", "classic", "ht"]);
+        return case(cmd("simplify", &[pf, "fixpoint"]), deep_text(rng));
+    }
     let pf = *rng.pick(PORTFOLIOS);
     let st = *rng.pick(STRATEGIES);
     case(cmd("simplify", &[pf, st]), simplify_text(rng, 6))
